@@ -174,7 +174,7 @@ Proof.
     apply matches_cat in H. destruct H as [ds [r2 [-> [Hd H]]]].
     apply matches_cat_chr in H. destruct H as [ps [-> Hps]].
     exists a, (ds ++ x2d :: ps ++ x2d :: d1 ++ x2d :: d2 ++ x2d :: bs).
-    split; [rewrite <- !app_assoc; cbn [app]; rewrite <- !app_assoc; reflexivity|]. split; [exact Ha|].
+    split; [rewrite <- !app_assoc; cbn [app]; reflexivity|]. split; [exact Ha|].
     apply matches_cat. eexists ds, _. split; [reflexivity|]. split; [exact Hd|].
     apply matches_cat_chr. eexists. split; [reflexivity|].
     apply matches_cat. eexists ps, _. split; [reflexivity|]. split; [exact Hps|].
@@ -331,7 +331,7 @@ Proof.
   rewrite runes_sep. cbn [until_second_sep]. rewrite is_sep_rune_single. cbn [Byte.eqb negb orb Nat.eqb app].
   f_equal. f_equal.
   rewrite runes_idchars_app by exact Hd. rewrite until_second_sep_singles by exact Hd.
-  rewrite runes_sep. cbn [until_second_sep]. rewrite is_sep_rune_single. cbn. apply app_nil_r.
+  rewrite runes_sep. cbn [until_second_sep]. rewrite is_sep_rune_single. cbn. rewrite app_nil_r. reflexivity.
 Qed.
 
 Lemma is_abbrev_idchars a : is_abbrev a -> idchars a.
@@ -467,6 +467,18 @@ Qed.
 
 (* ---------- prefix scans ---------- *)
 
+Lemma app_sep_inj (c c' X Y : bytes) : idchars c -> idchars c' ->
+  c ++ x2d :: X = c' ++ x2d :: Y -> c = c' /\ X = Y.
+Proof.
+  intros Hc. revert c'. induction Hc as [|x c Hx _ IH]; intros c' Hc' E.
+  - destruct Hc' as [|y c' Hy _].
+    + cbn in E. injection E as ->. tauto.
+    + cbn in E. injection E as E _. destruct Hy as [_ [Hy _]]. congruence.
+  - destruct Hc' as [|y c' Hy Hc'].
+    + cbn in E. injection E as E _. destruct Hx as [_ [Hx _]]. congruence.
+    + cbn in E. injection E as -> E. destruct (IH c' Hc' E) as [-> ->]. tauto.
+Qed.
+
 Lemma has_prefix_sep_app (c c' X Y : bytes) : idchars c -> idchars c' ->
   has_prefix (c ++ x2d :: X) (c' ++ x2d :: Y) = true <-> (c = c' /\ has_prefix X Y = true).
 Proof.
@@ -529,6 +541,221 @@ Proof.
   rewrite E2. rewrite <- app_assoc. cbn [app].
   rewrite (has_prefix_sep_app c c' _ _ (is_class_id_idchars _ Hc) (is_class_id_idchars _ Hc')).
   rewrite (has_prefix_sep_app ds ps [] _ (all_digits_idchars _ Hds) (all_digits_idchars _ Hps)). cbn [has_prefix].
-  split; [intros [-> [-> _]]; reflexivity|]. intro E. apply app_inv_head in E. injection E as ->.
-  split; [|tauto]. reflexivity.
+  split; [intros [-> [-> _]]; reflexivity|]. intro E.
+  apply app_sep_inj in E; [|apply is_class_id_idchars, Hc'|apply is_class_id_idchars, Hc].
+  destruct E as [-> ->]. tauto.
+Qed.
+
+(* ---------- exponent prefixes ---------- *)
+
+Lemma lookup_N_In {A} k (m : list (N * A)) v : lookup_N k m = Some v -> In (k, v) m.
+Proof.
+  induction m as [|[k' v'] m IH]; cbn [lookup_N]; [discriminate|].
+  destruct (N.eqb k k') eqn:E.
+  - apply N.eqb_eq in E. subst k'. intro H. injection H as ->. left. reflexivity.
+  - intro H. right. exact (IH H).
+Qed.
+
+(* checked by computation on the generated map: prefixes are at most one lowercase letter and
+   pairwise distinct *)
+Definition prefix_map_ok : bool :=
+  forallb (fun x =>
+    Nat.leb (length (snd x)) 1 && forallb is_lower (snd x) &&
+    forallb (fun y => implb (bytes_eqb (snd x) (snd y)) (N.eqb (fst x) (fst y))) exponent_prefix_map)
+  exponent_prefix_map.
+
+Lemma prefix_map_ok_true : prefix_map_ok = true.
+Proof. vm_compute. reflexivity. Qed.
+
+Lemma exponent_prefix_shape e p : exponent_to_prefix e = Some p -> (length p <= 1)%nat /\ all_lower p.
+Proof.
+  intro H. apply lookup_N_In in H. pose proof prefix_map_ok_true as K. unfold prefix_map_ok in K.
+  rewrite forallb_forall in K. specialize (K _ H). cbn [fst snd] in K.
+  rewrite !andb_true_iff in K. destruct K as [[K1 K2] _]. apply Nat.leb_le in K1. split; [exact K1|].
+  rewrite forallb_forall in K2. apply Forall_forall. exact K2.
+Qed.
+
+Theorem exponent_prefix_inj e e' p :
+  exponent_to_prefix e = Some p -> exponent_to_prefix e' = Some p -> e = e'.
+Proof.
+  intros H H'. apply lookup_N_In in H. apply lookup_N_In in H'.
+  pose proof prefix_map_ok_true as K. unfold prefix_map_ok in K.
+  rewrite forallb_forall in K. specialize (K _ H). cbn [fst snd] in K.
+  rewrite !andb_true_iff in K. destruct K as [_ K]. rewrite forallb_forall in K. specialize (K _ H').
+  cbn [fst snd] in K. rewrite bytes_eqb_refl in K. cbn [implb] in K. apply N.eqb_eq in K. exact K.
+Qed.
+
+(* ---------- basket names and denoms ---------- *)
+
+Definition is_basket_name (s : bytes) : Prop :=
+  exists c r, s = c :: r /\ is_alpha c = true /\ Forall (fun x => is_alnum x = true) r /\ (2 <= length r <= 7)%nat.
+
+Lemma matches_basket_name s : matches re_basket_name s <-> is_basket_name s.
+Proof.
+  unfold re_basket_name, is_basket_name. rewrite matches_cat. split.
+  - intros [s1 [r [-> [H1 H2]]]]. apply matches_class in H1. destruct H1 as [c [-> Hc]].
+    rewrite in_ranges_alpha in Hc. apply matches_rep_class in H2.
+    rewrite (all_in_ext _ is_alnum r in_ranges_alnum) in H2. exists c, r. tauto.
+  - intros [c [r [-> [Hc [Hr Hl]]]]]. exists [c], r. split; [reflexivity|]. split.
+    + apply matches_class. exists c. split; [reflexivity|]. rewrite in_ranges_alpha. exact Hc.
+    + apply matches_rep_class. rewrite (all_in_ext _ is_alnum r in_ranges_alnum). tauto.
+Qed.
+
+Lemma validate_basket_name_spec s : validate_basket_name s = true <-> is_basket_name s.
+Proof.
+  unfold validate_basket_name. rewrite validate_with_spec, rmatch_correct, matches_basket_name.
+  split; [tauto|]. intro H. split; [|exact H]. destruct H as [c [r [-> _]]]. discriminate.
+Qed.
+
+Lemma matches_dot_sep : matches re_dot [x2e].
+Proof. apply rmatch_correct. vm_compute. reflexivity. Qed.
+
+(* "eco" "." <1-4 letters> "." <basket name> is accepted by ValidateBasketDenom *)
+Lemma basket_denom_matches mid name :
+  (1 <= length mid <= 4)%nat -> Forall (fun c => is_alpha c = true) mid -> is_basket_name name ->
+  validate_basket_denom (basket_denom_prefix ++ basket_denom_separator :: mid ++ basket_denom_separator :: name) = true.
+Proof.
+  intros Hl Hm Hn. unfold validate_basket_denom. apply validate_with_spec. split; [discriminate|].
+  apply rmatch_correct. unfold re_basket_denom, basket_denom_prefix, basket_denom_separator. cbn [app].
+  apply matches_cat_chr. eexists. split; [reflexivity|].
+  apply matches_cat_chr. eexists. split; [reflexivity|].
+  apply matches_cat_chr. eexists. split; [reflexivity|].
+  apply matches_cat. exists [x2e], (mid ++ x2e :: name). split; [reflexivity|]. split; [exact matches_dot_sep|].
+  apply matches_cat. exists mid, (x2e :: name). split; [reflexivity|]. split.
+  { apply matches_rep_class. rewrite (all_in_ext _ is_alpha mid in_ranges_alpha). tauto. }
+  apply matches_cat. exists [x2e], name. split; [reflexivity|]. split; [exact matches_dot_sep|].
+  apply matches_basket_name in Hn. exact Hn.
+Qed.
+
+Lemma all_upper_alpha s : all_upper s -> Forall (fun c => is_alpha c = true) s.
+Proof. intro H. eapply Forall_impl; [|exact H]. intros c Hc. unfold is_alpha. cbv beta in Hc. rewrite Hc. reflexivity. Qed.
+
+Lemma all_lower_alpha s : all_lower s -> Forall (fun c => is_alpha c = true) s.
+Proof. intro H. eapply Forall_impl; [|exact H]. intros c Hc. unfold is_alpha. cbv beta in Hc. rewrite Hc. apply orb_true_r. Qed.
+
+(* For a valid basket name, a valid credit type abbreviation and every exponent of the prefix map,
+   FormatBasketDenom succeeds and both the denom and the display denom pass ValidateBasketDenom. *)
+Theorem format_basket_denom_valid name a e p :
+  validate_basket_name name = true -> rmatch re_credit_type_abbrev a = true ->
+  exponent_to_prefix e = Some p ->
+  exists d dd, format_basket_denom name a e = Some (d, dd) /\
+    validate_basket_denom d = true /\ validate_basket_denom dd = true.
+Proof.
+  intros Hn Ha Hp. apply validate_basket_name_spec in Hn. apply abbrev_spec in Ha. destruct Ha as [Hal Hau].
+  destruct (exponent_prefix_shape e p Hp) as [Hpl Hplow].
+  unfold format_basket_denom. rewrite Hp. eexists; eexists. split; [reflexivity|]. split.
+  - rewrite app_assoc. apply basket_denom_matches; [rewrite app_length; lia| |exact Hn].
+    apply Forall_app. split; [apply all_lower_alpha, Hplow|apply all_upper_alpha, Hau].
+  - apply basket_denom_matches; [lia|apply all_upper_alpha, Hau|exact Hn].
+Qed.
+
+Theorem format_basket_denom_none name a e :
+  format_basket_denom name a e = None <-> exponent_to_prefix e = None.
+Proof. unfold format_basket_denom. destruct (exponent_to_prefix e); split; congruence. Qed.
+
+Lemma app_sep_inj_gen (sep : byte) (c c' X Y : bytes) :
+  Forall (fun x => x <> sep) c -> Forall (fun x => x <> sep) c' ->
+  c ++ sep :: X = c' ++ sep :: Y -> c = c' /\ X = Y.
+Proof.
+  intros Hc. revert c'. induction Hc as [|x c Hx _ IH]; intros c' Hc' E.
+  - destruct Hc' as [|y c' Hy _].
+    + cbn in E. injection E as ->. tauto.
+    + cbn in E. injection E as E _. congruence.
+  - destruct Hc' as [|y c' Hy Hc'].
+    + cbn in E. injection E as E _. congruence.
+    + cbn in E. injection E as -> E. destruct (IH c' Hc' E) as [-> ->]. tauto.
+Qed.
+
+Lemma lower_upper_split p p' a a' :
+  all_lower p -> all_lower p' -> all_upper a -> all_upper a' -> a <> [] -> a' <> [] ->
+  p ++ a = p' ++ a' -> p = p' /\ a = a'.
+Proof.
+  intros Hp. revert p'. induction Hp as [|x p Hx _ IH]; intros p' Hp' Ha Ha' Hne Hne' E.
+  - destruct Hp' as [|y p' Hy _]; [tauto|]. exfalso. cbn in E.
+    destruct a as [|z a]; [congruence|]. injection E as -> _. inversion Ha as [|? ? Hz _]; subst.
+    rewrite (upper_not_lower _ Hz) in Hy. discriminate Hy.
+  - destruct Hp' as [|y p' Hy Hp'].
+    + exfalso. cbn in E. destruct a' as [|z a']; [congruence|]. injection E as -> _.
+      inversion Ha' as [|? ? Hz _]; subst. rewrite (upper_not_lower _ Hz) in Hx. discriminate Hx.
+    + cbn in E. injection E as -> E. destruct (IH p' Hp' Ha Ha' Hne Hne' E) as [-> ->]. tauto.
+Qed.
+
+(* The basket denom determines (name, credit type abbreviation, exponent), for valid (uppercase)
+   abbreviations and names without '.', in particular valid names.  With a lowercase "abbreviation"
+   it would not: ("NCT","dC",0) and ("NCT","C",1) both give eco.dC.NCT. *)
+Theorem format_basket_denom_inj name a e name' a' e' d dd dd' :
+  rmatch re_credit_type_abbrev a = true -> rmatch re_credit_type_abbrev a' = true ->
+  format_basket_denom name a e = Some (d, dd) -> format_basket_denom name' a' e' = Some (d, dd') ->
+  name = name' /\ a = a' /\ e = e'.
+Proof.
+  intros Ha Ha' H H'. apply abbrev_spec in Ha. apply abbrev_spec in Ha'.
+  unfold format_basket_denom in H, H'.
+  destruct (exponent_to_prefix e) as [p|] eqn:Hp; [|discriminate]. destruct (exponent_to_prefix e') as [p'|] eqn:Hp'; [|discriminate].
+  injection H as H _. injection H' as H' _. rewrite <- H' in H. clear H'.
+  injection H as H. rewrite !app_assoc in H.
+  destruct (exponent_prefix_shape e p Hp) as [_ Hl]. destruct (exponent_prefix_shape e' p' Hp') as [_ Hl'].
+  destruct Ha as [Hlen Hu]. destruct Ha' as [Hlen' Hu'].
+  assert (Hns : forall q u, all_lower q -> all_upper u -> Forall (fun x => x <> basket_denom_separator) (q ++ u)).
+  { intros q u Hq Hu0. apply Forall_app. split; (eapply Forall_impl; [|eassumption]); intros c Hc; cbv beta in Hc.
+    - apply lower_idchar in Hc. destruct Hc as [_ [_ Hc]]. exact Hc.
+    - apply upper_idchar in Hc. destruct Hc as [_ [_ Hc]]. exact Hc. }
+  apply app_sep_inj_gen in H; [|apply Hns; assumption|apply Hns; assumption].
+  destruct H as [H ->]. split; [reflexivity|].
+  apply lower_upper_split in H; try assumption.
+  - destruct H as [-> ->]. split; [reflexivity|]. exact (exponent_prefix_inj _ _ _ Hp Hp').
+  - intros ->. cbn in Hlen. lia.
+  - intros ->. cbn in Hlen'. lia.
+Qed.
+
+(* ---------- statements phrased with the chain's own validators (used by Properties/C14pure.v) ---------- *)
+
+Lemma abbrev_valid_rmatch a : validate_credit_type_abbrev a = true -> rmatch re_credit_type_abbrev a = true.
+Proof. unfold validate_credit_type_abbrev. rewrite validate_with_spec. tauto. Qed.
+
+Theorem class_id_valid a n :
+  validate_credit_type_abbrev a = true -> validate_class_id (format_class_id a n) = true.
+Proof. intro H. apply format_class_id_valid, abbrev_valid_rmatch, H. Qed.
+
+Theorem abbrev_recovered a n :
+  validate_credit_type_abbrev a = true ->
+  get_credit_type_abbrev_from_class_id (format_class_id a n) = Some a.
+Proof. intro H. apply get_credit_type_abbrev_from_class_id_format, abbrev_valid_rmatch, H. Qed.
+
+Theorem class_id_injective a n a' n' :
+  validate_credit_type_abbrev a = true -> validate_credit_type_abbrev a' = true ->
+  format_class_id a n = format_class_id a' n' -> a = a' /\ n = n'.
+Proof. intros H H'. apply format_class_id_inj; apply abbrev_valid_rmatch; assumption. Qed.
+
+Theorem basket_denom_valid name a e p :
+  validate_basket_name name = true -> validate_credit_type_abbrev a = true ->
+  exponent_to_prefix e = Some p ->
+  exists d dd, format_basket_denom name a e = Some (d, dd) /\
+    validate_basket_denom d = true /\ validate_basket_denom dd = true.
+Proof. intros Hn Ha. apply format_basket_denom_valid; [exact Hn|apply abbrev_valid_rmatch, Ha]. Qed.
+
+Theorem basket_denom_injective name a e name' a' e' d dd dd' :
+  validate_credit_type_abbrev a = true -> validate_credit_type_abbrev a' = true ->
+  format_basket_denom name a e = Some (d, dd) -> format_basket_denom name' a' e' = Some (d, dd') ->
+  name = name' /\ a = a' /\ e = e'.
+Proof. intros H H'. apply format_basket_denom_inj; apply abbrev_valid_rmatch; assumption. Qed.
+
+(* whole chain: abbreviation -> class id -> project id -> denom, everything validates and every
+   parser returns the component it was built from *)
+Theorem id_chain a cs ps bs s e :
+  validate_credit_type_abbrev a = true -> ts_valid s = true -> ts_valid e = true ->
+  let c := format_class_id a cs in
+  let p := format_project_id c ps in
+  let d := format_batch_denom p bs s e in
+  validate_class_id c = true /\ validate_project_id p = true /\ validate_batch_denom d = true /\
+  get_credit_type_abbrev_from_class_id c = Some a /\
+  get_class_id_from_project_id p = c /\
+  get_class_id_from_batch_denom d = c /\
+  get_project_id_from_batch_denom d = p.
+Proof.
+  intros Ha Hs He c p d.
+  assert (Hc : validate_class_id c = true) by (apply class_id_valid, Ha).
+  assert (Hp : validate_project_id p = true) by (apply format_project_id_valid, Hc).
+  split; [exact Hc|]. split; [exact Hp|]. split; [apply format_batch_denom_valid; assumption|].
+  split; [apply abbrev_recovered, Ha|]. split; [apply get_class_id_from_project_id_format, Hc|].
+  split; [apply get_class_id_from_batch_denom_format, Hc|apply get_project_id_from_batch_denom_format, Hp].
 Qed.
